@@ -573,18 +573,7 @@ func (ex *Exec) assumeZeroStructElems(st *State, elem types.Type, arr Term) {
 func (ex *Exec) newStruct(st *State, t types.Type) Term {
 	r := ex.freshRef(st, "ref")
 	ex.zeroStructAt(st, t, r)
-	// ghost state declared on the type starts at its zero value
-	for _, k := range ghostTypeKeys(t) {
-		for _, g := range ex.ctx.specs.Ghosts {
-			if g.Type == k {
-				if sort, ok := logicalSort(g.Sort); ok && (sort == SInt || sort == SBool || sort == SBytes) {
-					name := "ghost:" + g.Type + "." + g.Name
-					st.Heaps[name] = Store(ex.heap(st, name, ArrSort(sort)), r, zeroTerm(sort))
-					ex.recordWrite(name, LHeap1, r, ArrSort(sort))
-				}
-			}
-		}
-	}
+	ex.zeroGhosts(st, t, r)
 	return r
 }
 
@@ -597,9 +586,25 @@ func (ex *Exec) zeroStructAt(st *State, t types.Type, r Term) {
 		}
 		if fl.Kind == LStruct {
 			ex.zeroStructAt(st, fl.Typ, fl.Ref)
+			ex.zeroGhosts(st, fl.Typ, fl.Ref)
 			continue
 		}
 		ex.storeLoc(st, fl, ex.zeroVal(st, fl.Typ))
+	}
+}
+
+// zeroGhosts: ghost state declared on the type starts at its zero value
+func (ex *Exec) zeroGhosts(st *State, t types.Type, r Term) {
+	for _, k := range ghostTypeKeys(t) {
+		for _, g := range ex.ctx.specs.Ghosts {
+			if g.Type == k {
+				if sort, ok := logicalSort(g.Sort); ok && (sort == SInt || sort == SBool || sort == SBytes) {
+					name := "ghost:" + g.Type + "." + g.Name
+					st.Heaps[name] = Store(ex.heap(st, name, ArrSort(sort)), r, zeroTerm(sort))
+					ex.recordWrite(name, LHeap1, r, ArrSort(sort))
+				}
+			}
+		}
 	}
 }
 
